@@ -373,7 +373,12 @@ PRELUDE = r'''
             (def b (buffer v))
             (def n (length b))
             (buffer/format b "%j" b)
-            (rt-check v (string/slice b n)))
+            (rt-check v (string/slice b n))
+            # the same with content that is all escapes (the printed form is four times as long as the content)
+            (def hi (buffer/new-filled (+ 1 n) (+ 128 (% n 100))))
+            (def hi0 (buffer hi))
+            (buffer/format hi "%j" hi)
+            (rt-check hi0 (string/slice hi (+ 1 n))))
           (array/push parts t)
           (array/push parts (seps (% i (length seps)))))))
   (string/join parts))
